@@ -99,7 +99,9 @@ def buffer_discipline(ctx, R1, repo, res, rv):
         if n.kind == "test":
             for lab in ("true", "false"):
                 fs = edge_facts(g, n.id, lab)
-                if (f"{len_n} > 0", False) in fs or (f"{len_n} == 0", True) in fs or (f"{len_n} <= 0", True) in fs:
+                # (the consumed length is never negative - C10.progress decides that of the decoder's returns - so "< 0" sides are dead)
+                if (f"{len_n} > 0", False) in fs or (f"{len_n} == 0", True) in fs or (f"{len_n} <= 0", True) in fs \
+                        or (f"{len_n} >= 0", False) in fs or (f"{len_n} > -1", False) in fs or (f"{len_n} < 0", True) in fs or (f"{len_n} <= -1", True) in fs:
                     skip_edges.add((n.id, lab))
     # targets: any node using the buffer or awaiting (the next decode, the next read, process_message)
     users = []
